@@ -10,9 +10,12 @@ returns what an open twin returns or raises Geoh5FileClosedError, and re-opening
 from __future__ import annotations
 
 import gc
+import os
+import shutil
 import random
 
 import h5py
+import numpy as np
 
 from .. import hist, snap
 from ..core import canon, short
@@ -33,7 +36,7 @@ VARIANTS = ["with-abort", "with-normal", "explicit-double", "helper-abort-closed
 
 
 def floors(tier):
-    return {"aborts": 100, "C11.handle-leak": 200, "C11.completed-op-missing": 1000, "C11.after-close-access": 2000, "C11.reopen-restores": 150, "variant:helper-abort-closed": 15, "variant:helper-abort-readonly": 15, "variant:save-as": 10, "variant:concat:with-abort": 10, "variant:concat:helper-abort-closed": 10, "concat-op:data-flag": 12}
+    return {"aborts": 100, "C11.handle-leak": 200, "C11.completed-op-missing": 1000, "C11.after-close-access": 2000, "C11.reopen-restores": 150, "variant:helper-abort-closed": 15, "variant:helper-abort-readonly": 15, "variant:save-as": 10, "variant:concat:with-abort": 10, "variant:concat:helper-abort-closed": 10, "concat-op:data-flag": 12, "root-entry-deleted": 10, "deferred:object": 5, "deferred:data": 5, "deferred:group-and-child": 5}
 
 
 def EXHAUSTIVE(tier):
@@ -55,9 +58,15 @@ def gen_cases(tier, seed):
             for extra in ([0, 1] if tier == "quick" else [0, 1, 2, 2]):
                 cases.append({"kind": "concat", "variant": variant, "op": op, "extra": extra, "version": [2.0, 2.1][i % 2]})
                 i += 1
+    # writes the library defers to close(): entities created with save_on_creation=False, and a root rebuilt in memory
+    for variant in ["with-abort", "with-normal", "explicit", "helper-abort-closed", "helper-normal"]:
+        for scen in DEFERRED:
+            for extra in ([0, 1] if tier == "quick" else [0, 1, 2, 3]):
+                cases.append({"kind": "deferred", "variant": variant, "scenario": scen, "extra": extra})
     return cases
 
 
+DEFERRED = ["object", "group-and-child", "data", "rootless", "rootless-nested"]
 CONCAT_OPS = ["data-flag", "hole-flag", "data-values", "data-rename", "hole-rename", "add-to-table", "new-table", "remove-data", "hole-collar", "pg-only-flags"]
 
 
@@ -212,6 +221,125 @@ class Abort(Exception):
     pass
 
 
+def run_deferred(case, rec):
+    """Operations whose write the library itself postpones to the close: an entity created through the documented
+    `Workspace.create_entity(..., save_on_creation=False)` next to entities that are stored already, and new entities under a
+    root that `Workspace` rebuilt in memory because the file has no Root entry.  What the session showed before the close is what
+    a fresh reader of the closed file gets."""
+    import tempfile
+
+    import h5py
+
+    from geoh5py.groups import ContainerGroup
+    from geoh5py.objects import Curve, Points
+    from geoh5py.shared.utils import fetch_active_workspace
+    from geoh5py.workspace import Workspace
+
+    rng = random.Random(case["seed"])
+    variant, scen = case["variant"], case["scenario"]
+    rec.see("variant:deferred:" + variant)
+    rec.see("deferred:" + scen)
+    d = tempfile.mkdtemp(prefix="gvm_c11d_")
+    path = os.path.join(d, f"w{os.getpid()}.geoh5")
+    baseline = open_objects()
+    xyz = np.array([[float(i), float(i * i % 5), float(rng.randint(0, 4))] for i in range(rng.randint(3, 7))])
+    try:
+        ws = Workspace.create(path)
+        grp = ContainerGroup.create(ws, name="stored group")
+        first = Points.create(ws, name="stored first", vertices=xyz, parent=grp if case["extra"] % 2 else None)
+        first.add_data({"d0": {"values": np.arange(len(xyz), dtype=float)}})
+        for k in range(case["extra"]):
+            Curve.create(ws, name=f"stored {k}", vertices=xyz + k)
+        root_uid = ws.root.uid
+        ws.close()
+        if scen.startswith("rootless"):
+            # a project file without its Root entry (written by other tools, or partially copied): the library rebuilds the tree
+            with h5py.File(path, "r+") as h5:
+                top = h5[list(h5)[0]]
+                del top["Root"]
+                del top["Groups"]["{" + str(root_uid) + "}"]
+            rec.see("root-entry-deleted")
+
+        def work(w):
+            if scen == "object":
+                parent = w.get_entity("stored group")[0] if rng.random() < 0.5 else None
+                w.create_entity(Points, save_on_creation=False, entity={"name": "deferred", "vertices": xyz + 10, **({"parent": parent} if parent is not None else {})})
+            elif scen == "group-and-child":
+                g = w.create_entity(ContainerGroup, save_on_creation=False, entity={"name": "deferred group"})
+                Points.create(w, name="child of deferred", vertices=xyz + 20, parent=g)
+            elif scen == "data":
+                obj = w.get_entity("stored first")[0]
+                from geoh5py.data import FloatData
+
+                w.create_entity(FloatData, save_on_creation=False, entity={"name": "deferred data", "parent": obj, "values": np.arange(len(xyz), dtype=float) + 0.5, "association": "VERTEX"}, entity_type={"primitive_type": "FLOAT", "name": "deferred data"})
+            elif scen == "rootless":
+                Points.create(w, name="new under rebuilt root", vertices=xyz + 30)
+            else:
+                g = w.get_entity("stored group")[0]
+                Points.create(w, name="new under stored group", vertices=xyz + 40, parent=g)
+                ContainerGroup.create(w, name="new group under rebuilt root")
+            return snap.api_snapshot(w)
+
+        live = None
+        try:
+            if variant in ("with-abort", "with-normal"):
+                with Workspace(path) as w:
+                    ws = w
+                    live = work(w)
+                    if variant == "with-abort":
+                        rec.see("aborts")
+                        raise Abort()
+            elif variant == "explicit":
+                ws = Workspace(path)
+                live = work(ws)
+                ws.close()
+            else:
+                ws = Workspace(path, mode="r")
+                ws.close()
+                with fetch_active_workspace(ws, mode="r+") as w:
+                    live = work(w)
+                    if variant == "helper-abort-closed":
+                        rec.see("aborts")
+                        raise Abort()
+        except Abort:
+            pass
+        rec.check("C11.not-closed", not bool(ws._geoh5), op="deferred:" + variant, cls="Workspace", attr=scen, detail="workspace still holds an open handle")  # noqa: SLF001
+        gc.collect()
+        now = open_objects()
+        rec.check("C11.handle-leak", now == baseline, op="deferred:" + variant, cls="Workspace", attr=scen, detail=f"{now - baseline} HDF5 objects still open after close")
+        raw = snap.raw_snapshot(path)
+        rec.evals["C11.invalid-file"] += 1
+        for rule, kind, detail, _subject in snap.validate_raw(raw):
+            rec.fail("C11.invalid-file", op="deferred:" + variant, cls=kind, attr=rule, detail=detail, counted=True)
+        twin = Workspace(path, mode="r")
+        try:
+            reopened = snap.api_snapshot(twin)
+        finally:
+            twin.close()
+        if scen.startswith("rootless"):
+            # the rebuilt root got a new identifier when it was stored; everything below it is compared by name
+            strip_root = lambda s_: sorted((r.get("name"), r.get("cls"), short(r.get("vertices"), 200), len(r.get("children") or [])) for r in s_.values() if r.get("cls") != "RootGroup")  # noqa: E731
+            rec.check("C11.completed-op-missing", strip_root(live) == strip_root(reopened), op="deferred:" + variant, cls="Workspace", attr=scen, detail=f"before the close the session showed {[x[:2] for x in strip_root(live)]}, a reader of the closed file gets {[x[:2] for x in strip_root(reopened)]}")
+        else:
+            hist.diff_snapshots(rec, PROP, "C11.completed-op-missing", live, reopened, "deferred:" + variant + ":" + scen)
+            rec.evals["C11.completed-op-missing"] += len(reopened)
+        ws.open()
+        again = snap.api_snapshot(ws)
+        ws.close()
+        hist.diff_snapshots(rec, PROP, "C11.reopen-restores", reopened, again, "deferred:" + variant + ":" + scen)
+        rec.evals["C11.reopen-restores"] += 1
+        rec.nontrivial = True
+        rec.shape = ["deferred", variant, scen, case["extra"]]
+        rec.sample = {"variant": variant, "scenario": scen}
+    finally:
+        try:
+            ws.close()
+        except Exception:  # noqa: BLE001
+            pass
+        shutil.rmtree(d, ignore_errors=True)
+        gc.collect()
+
+
 def open_objects():
     return h5py.h5f.get_obj_count(h5py.h5f.OBJ_ALL, h5py.h5f.OBJ_ALL)
 
@@ -246,6 +374,8 @@ def run_case(case, rec):
 
     if case["kind"] == "concat":
         return run_concat(case, rec)
+    if case["kind"] == "deferred":
+        return run_deferred(case, rec)
     rng = random.Random(case["hseed"])
     from ..core import seed_all
 
